@@ -662,12 +662,27 @@ void setup(vf::Options &o) {
   o.deadline_s = o.thorough ? 900 : 100;
 }
 
+// the operations that existed before the conversion extension (a prefix of the alphabet)
+const std::vector<Op> &base_ops(bool unique) {
+  static std::vector<Op> s, u;
+  if (s.empty()) {
+    for (auto &o : shared_ops()) if (o.code < S_C_CTOR_CONV_MOVE) s.push_back(o);
+    for (auto &o : unique_ops()) if (o.code < U_XD_FRESH) u.push_back(o);
+  }
+  return unique ? u : s;
+}
+
 void run(vf::Ctx &c) {
   g_c = &c;
-  int part = c.pick("part", 2);
-  int depth = atoi(c.opt().get("depth", c.thorough() ? "7" : "4").c_str());
-  if (part == 0) drive<SWorld<StdFam>, SWorld<NoFam>>(c, "shared_ptr", shared_ops(), depth, 0x5a);
-  else drive<UWorld<StdFam>, UWorld<NoFam>>(c, "unique_ptr", unique_ops(), depth, 0x0b);
+  // quick: the full alphabet (65 operations per world) to depth 4.
+  // thorough: the full alphabet to depth 5 AND the 59 operations without the cv / std-derived conversions to depth 7
+  // (depth 7 over all 65 operations is ~500k forked executions: it does not fit the tier on a loaded machine; the added
+  // operations are conversions whose effect does not depend on long histories).  --depth=N overrides both.
+  int part = c.pick("part", c.thorough() ? 4 : 2);
+  bool unique = (part & 1) != 0, base_only = part >= 2;
+  int depth = atoi(c.opt().get("depth", !c.thorough() ? "4" : base_only ? "7" : "5").c_str());
+  if (!unique) drive<SWorld<StdFam>, SWorld<NoFam>>(c, "shared_ptr", base_only ? base_ops(false) : shared_ops(), depth, base_only ? 0x15a : 0x5a);
+  else drive<UWorld<StdFam>, UWorld<NoFam>>(c, "unique_ptr", base_only ? base_ops(true) : unique_ops(), depth, base_only ? 0x10b : 0x0b);
 }
 
 }  // namespace
